@@ -29,7 +29,7 @@ class ExcelProjectIo(ProjectIoInterface):
         -------
             :class:`Parameters`
         """
-        df = pd.read_excel(file_name, na_values=["None", "none"], dtype={"label": str})
+        df = pd.read_excel(file_name, na_values=["None", "none"], dtype={"label": str, "expression": str})
         df.columns = [column.lower() for column in df.columns]
         df = df.rename(columns=OPTION_NAMES_DESERIALIZED)
         safe_dataframe_fillna(df, "minimum", -np.inf)
